@@ -52,6 +52,10 @@ def classify_event(stmt):
                     ev.append(('rebind', '_array', stmt))
                 elif tt.attr == 'lengths':
                     ev.append(('rebind', 'lengths', stmt))
+                else:
+                    # any other attribute of the object is extra (cached/
+                    # derived) state that the writers do not maintain
+                    ev.append(('rebind', 'other:' + tt.attr, stmt))
             elif isinstance(tt, ast.Subscript):
                 base = tt.value
                 while isinstance(base, ast.Subscript):
@@ -295,7 +299,8 @@ def d3_copy(ck, mod):
         if isinstance(s, ast.Assign) and u(s.targets[0]) == 'self.lengths':
             n += 1
             v = s.value
-            ok = isinstance(v, ast.Call) and call_name(v) == 'np.array' and kwarg(v, 'copy') is None
+            ok = isinstance(v, ast.Call) and ((call_name(v) == 'np.array' and kwarg(v, 'copy') is None) or
+                                              (isinstance(v.func, ast.Attribute) and v.func.attr == 'copy' and not v.args))
             ck.check(ok, rule + '.lengths', mod, s, CLS + '.__init__', u(s)[:140],
                      'lengths are stored as a fresh array',
                      'self.lengths must be a fresh np.array(...): np.asarray(lengths) keeps the caller\'s array, so '
@@ -325,4 +330,6 @@ def check(ck):
     writers, pure = d1_writers(ck, mod)
     d2_pure(ck, mod, pure)
     d3_copy(ck, mod)
+    from .C05 import d7_constructor_and_lists
+    d7_constructor_and_lists(ck, mod)
     return EXPLANATION
